@@ -14,7 +14,7 @@ import warnings
 import numpy as np
 
 from ..cert import DM, chol_factor, frac_json, repair_povm
-from ..pool import Result, run_pool, worker_driver
+from ..pool import Result, TaskTimeout, run_pool, worker_driver
 from .. import qgen
 
 RULE = ("ensembles (2..5 states, dimension 2..4, real/complex integer amplitudes normalised in floating point, vectors as 1-D / column arrays or "
@@ -76,10 +76,11 @@ def gen_instance(rng):
         elif kind == "near":
             v0 = qgen.int_vector(rng, d, cplx, lim=4)
             vecs = [qgen.unit(v0)]
-            for _ in range(k - 1):
+            while len(vecs) < k:
                 e = np.zeros(d, dtype=complex)
                 e[int(rng.integers(d))] = (1j if (cplx and rng.integers(2)) else 1) * int(rng.choice([-1, 1]))
-                vecs.append(qgen.unit(v0 + e))
+                if np.any(v0 + e != 0):
+                    vecs.append(qgen.unit(v0 + e))
         else:
             kind = "random"
             vecs = [qgen.unit(qgen.int_vector(rng, d, cplx)) for _ in range(k)]
@@ -121,6 +122,34 @@ def family_instances(rng, n_rot):
             out.append({"d": d, "k": k, "cplx": cplx, "form": form, "kind": "family", "states": states, "probs": [1.0 / k] * k,
                         "probs_given": bool(r % 2), "family": name + ("" if r == 0 else f"/rot{r}"), "anti": anti})
     return out
+
+
+# ------------------------------------------------------------------------------------------------
+# bounded calls of the implementation (CVXOPT occasionally needs minutes or does not terminate on degenerate programs)
+
+
+class CallTimeout(BaseException):
+    """raised by the CPU-time limit around one call of the implementation (BaseException: must not be swallowed by `except Exception`)"""
+
+
+CALL_LIMIT_S = {"quick": 8.0, "thorough": 40.0}
+_tier = "quick"
+
+
+def _limited(fn, *a, **kw):
+    """run fn with a CPU-time limit (SIGVTALRM, independent of the pool's wall-clock SIGALRM); raises CallTimeout"""
+    import signal
+
+    def h(signum, frame):
+        raise CallTimeout()
+
+    old = signal.signal(signal.SIGVTALRM, h)
+    signal.setitimer(signal.ITIMER_VIRTUAL, CALL_LIMIT_S.get(_tier, 8.0))
+    try:
+        return fn(*a, **kw)
+    finally:
+        signal.setitimer(signal.ITIMER_VIRTUAL, 0)
+        signal.signal(signal.SIGVTALRM, old)
 
 
 # ------------------------------------------------------------------------------------------------
@@ -289,7 +318,13 @@ def work(task, res: Result):
         desc = dict(base, strategy=strategy, primal_dual=pd, solver=solver, probs_given=inst["probs_given"])
         args = dict(vectors=[np.asarray(s) for s in states], probs=(list(probs) if inst["probs_given"] else None), strategy=strategy, solver=solver, primal_dual=pd)
         try:
-            val, meas = state_exclusion(**args)
+            val, meas = _limited(state_exclusion, **args)
+        except CallTimeout:
+            # the solver did not finish within the CPU-time limit: runtime behaviour, counted in the evidence, no verdict
+            res.case(desc, False, f"{strategy}/{pd}/{solver}/solver-timeout")
+            continue
+        except TaskTimeout:
+            raise
         except (ArithmeticError, ZeroDivisionError):
             # CVXOPT's KKT solver breaking down numerically on a degenerate instance: runtime behaviour of the solver,
             # not a statement about the optimum (DESIGN.md section 10); counted, never silently dropped
@@ -402,7 +437,12 @@ def work_anti(task, res: Result):
     for fn_name, fn in (("is_antidistinguishable", is_antidistinguishable), ("common_quantum_overlap", common_quantum_overlap)):
         desc = dict(base, fn=fn_name)
         try:
-            out = fn(vecs)
+            out = _limited(fn, vecs)
+        except CallTimeout:
+            res.case(desc, False, f"{fn_name}/solver-timeout")
+            continue
+        except TaskTimeout:
+            raise
         except (ArithmeticError, ZeroDivisionError):
             res.case(desc, False, f"{fn_name}/solver-numerical-failure")
             continue
@@ -455,10 +495,12 @@ def work_invariance(task, res: Result):
         return U @ a @ U.conj().T
 
     try:
-        v0, _ = state_exclusion(vecs, probs)
-        v1, _ = state_exclusion([rot(s) for s in vecs], probs)
-        v2, _ = state_exclusion([vecs[i] for i in perm], [probs[i] for i in perm])
-    except Exception:
+        v0, _ = _limited(state_exclusion, vecs, probs)
+        v1, _ = _limited(state_exclusion, [rot(s) for s in vecs], probs)
+        v2, _ = _limited(state_exclusion, [vecs[i] for i in perm], [probs[i] for i in perm])
+    except TaskTimeout:
+        raise
+    except (Exception, CallTimeout):
         res.case({"fn": "invariance", "k": inst["k"], "d": inst["d"]}, False, "invariance/raise")
         return
     desc = {"fn": "invariance", "d": inst["d"], "k": inst["k"], "cplx": inst["cplx"], "form": inst["form"], "perm": perm, "states": vecs, "probs": probs, "U": U}
@@ -490,8 +532,10 @@ def _sdp_solvers():
 
 
 def run(ctx, model_ok=True):
+    global _tier
     rng = ctx.rng
     quick = ctx.tier == "quick"
+    _tier = ctx.tier  # inherited by the forked workers
     # matchers for defects of the unchanged tree, active only if the maintainer records them as known findings
     ctx.matchers["excl_primal_complex_typeerror"] = lambda info: (info.get("function") == "state_exclusion" and info.get("args", {}).get("primal_dual") == "primal"
                                                                    and info.get("cplx") and "TypeError" in info.get("exception", ""))
